@@ -18,6 +18,7 @@ RULE = ("collections of 1..5 rules (detection names from a pool with keyword-pre
         "in any multiplicity) x random subsets and orders of the built-in validators x two rule orders x exclusion tables; "
         "validation before vs after conversion; distinct = distinct (collection, validator order); non-trivial = >= 2 rules"
         "; list-valued attributes in unsorted order; verbatim copies of a rule under two directories")
+RULE += '; round 4: validation after a conversion whose pipeline adds a condition and renames fields: reference checks exact for the rewritten rules (second Lean request)'
 ASSUMPTIONS = [
     "validators needing network data (MITRE ATT&CK / D3FEND tag validators) are excluded from the validator pool",
     "issues are compared as (class, set of rule titles, extra fields) multisets",
@@ -132,7 +133,22 @@ def run_impl(case):
                 conv_fresh = "ERR:" + outcome_of_exception(e)
             runs.append({"order": order, "unchanged": before == after, "conv_same": conv == conv_fresh,
                          "issues": sorted((issue_key(i) for i in issues), key=repr), "excluded_rule": order[0] if excl else None})
-        return {"outcome": "ok", "runs": runs, "validators": chosen}
+        # validation AFTER a conversion whose pipeline rewrites the rules (a condition added to every rule, fields renamed): the
+        # reference checks are exact for the rules as they are now
+        post = None
+        try:
+            from sigma.processing.pipeline import ProcessingPipeline
+            pl = ProcessingPipeline.from_dict({"name": "p", "priority": 10, "transformations": [
+                {"id": "ac", "type": "add_condition", "conditions": {"EventID": 1}},
+                {"id": "fm", "type": "field_name_mapping", "mapping": {"f": "mapped_f", "g": ["g1", "g2"]}}]})
+            rules = load(case, list(range(n)))
+            TextQueryTestBackend(pl, collect_errors=True).convert(SigmaCollection(copy.copy(rules), resolve_references=False))
+            state = [{"dets": list(r.detection.detections), "conds": [pc.condition for pc in r.detection.parsed_condition]} for r in rules]
+            v = SigmaValidator([pool[x] for x in ("DanglingDetectionValidator", "DanglingConditionValidator")], {})
+            post = {"state": state, "issues": sorted((issue_key(i) for i in v.validate_rules(rules)), key=repr)}
+        except Exception as e:
+            post = {"error": outcome_of_exception(e), "msg": str(e)[:200]}
+        return {"outcome": "ok", "runs": runs, "validators": chosen, "post": post}
     except Exception as e:
         return {"outcome": outcome_of_exception(e), "msg": str(e)[:200]}
 
@@ -152,6 +168,10 @@ def make_request(case, impl, gen):
     g = gen.get("Cond")
     if g:
         req["grammar"] = {k: (cps(v) if isinstance(v, str) else [cps(x) for x in v] if isinstance(v, list) else v) for k, v in g.items() if k != "whiteChars"}
+    post = (impl.get("post") or {}).get("state") if isinstance(impl, dict) else None
+    if post:      # the rules as the conversion left them
+        req2 = dict(req, rules=[{"dets": [cps(n) for n in st["dets"]], "conds": [cps(c) for c in st["conds"]]} for st in post])
+        return {"op": "multi", "parts": [req, req2]}
     return req
 
 
@@ -163,6 +183,9 @@ def judge(case, impl, reply):
     if io != "ok":
         return Verdict("violation", f"validation raised {io}: {impl.get('msg')} for {[r['detection'] for r in case['rules']]}", nt, key, tags=tuple(tags))
     runs = impl["runs"]
+    reply_post = None
+    if "parts" in reply:
+        reply, reply_post = reply["parts"]
     for r in runs:
         if not r["unchanged"]:
             return Verdict("violation", f"a rule's dict form changed during validation (rule order {r['order']}, validators {impl['validators']})", nt, key, tags=tuple(tags))
@@ -213,4 +236,22 @@ def judge(case, impl, reply):
                 want.append(sorted(ident[j] for j in g["rules"]))
         if got != sorted(want):
             return Verdict("violation", f"DuplicateFilenameIssue: reported groups {got} but the rules sharing a file name under different paths are exactly {sorted(want)}", nt, key, tags=tuple(tags))
+    post = impl.get("post") or {}
+    if post.get("error", "").startswith("other:"):
+        return Verdict("violation", f"validation after a conversion raised {post['error']}: {post.get('msg')}", nt, key, tags=tuple(tags))
+    if reply_post is not None and "issues" in post:
+        tags.append("post-conversion")
+        for k, (r, st, rr) in enumerate(zip(case["rules"], post["state"], reply_post["rules"])):
+            if rr.get("parseError") or len([j for j in range(len(ident)) if ident[j] == ident[k]]) > 1:
+                continue
+            got_dd = sorted(dict(i[2])["detection_name"] for i in post["issues"] if i[0] == "DanglingDetectionIssue" and i[1] == [ident[k]])
+            want_dd = sorted(uncps(x) for x in rr["danglingDetections"])
+            if got_dd != want_dd:
+                return Verdict("violation", (f"validation after a conversion that added a condition: rule with detections {st['dets']} and conditions {st['conds']}: "
+                                             f"reported unused detections {got_dd}, exactly {want_dd} are referred to by no condition"), nt, key, tags=tuple(tags))
+            got_dc = sorted(dict(i[2])["condition_name"] for i in post["issues"] if i[0] == "DanglingConditionIssue" and i[1] == [ident[k]])
+            want_dc = sorted(uncps(x) for x in rr["danglingConditions"])
+            if got_dc != want_dc:
+                return Verdict("violation", (f"validation after a conversion that added a condition: rule with detections {st['dets']} and conditions {st['conds']}: "
+                                             f"reported dangling selectors {got_dc}, exactly {want_dc} match no detection"), nt, key, tags=tuple(tags))
     return Verdict("ok", "", nt, key, tags=tuple(tags))
